@@ -11,7 +11,6 @@
 package ibb // import "mellium.im/xmpp/ibb"
 
 import (
-	"bytes"
 	"context"
 	"encoding/base64"
 	"encoding/xml"
@@ -227,8 +226,14 @@ func handlePayload(h *Handler, errResp errorResponder, p dataPayload, e xmlstrea
 		}))
 		return err
 	}
-	b64Reader := base64.NewDecoder(base64.StdEncoding, bytes.NewReader(p.Data))
-	_, err := conn.readBuf.ReadFrom(b64Reader)
+	// Decode the whole packet before touching the buffer so that nothing of a
+	// malformed packet (for instance its valid prefix) reaches the reader and
+	// truncated input is reported as corrupt too.
+	decoded := make([]byte, dataLen)
+	n, err := base64.StdEncoding.Decode(decoded, p.Data)
+	if err == nil {
+		_, err = conn.readBuf.Write(decoded[:n])
+	}
 	if errors.As(err, &inputErr) {
 		_, err := xmlstream.Copy(e, errResp.Error(stanza.Error{
 			Type:      stanza.Cancel,
